@@ -139,9 +139,11 @@ def main(argv=None):
         write_evidence(prop, a.tier, seed, getattr(mod, "LEVEL", "other"), coverage,
                        list(getattr(mod, "ASSUMPTIONS", [])), time.time() - t0, len(new))
         print("%s %s: %d rule instances over %d rules, %d known finding(s), %d new violation(s), "
-              "selfcheck %d witnesses / %d twins / %d stored seeded changes, %.2fs" %
+              "selfcheck %d witnesses / %d twins / %d stored seeded changes / %d behaviour-preserving changes silent%s, %.2fs" %
               (prop, a.tier, len(ctx.instances), len(per_rule), len(known), len(new),
-               variants["witnesses_run"], variants["twins_run"], variants.get("seeds_run", 0), time.time() - t0))
+               variants["witnesses_run"], variants["twins_run"], variants.get("seeds_run", 0), variants.get("benign_run", 0),
+               (" (%d undecided)" % len(variants["benign_inconclusive"])) if variants.get("benign_inconclusive") else "",
+               time.time() - t0))
         if a.verbose:
             for i in ctx.instances:
                 print("  %-10s %-9s %s %s :: %s" % (i["rule"], i["verdict"], i["site"], i["construct"], i["what"]))
